@@ -168,7 +168,9 @@ let in_child (f : unit -> string) : child_end =
   | 0 ->
     Unix.close rd;
     (* silence assert messages of the library *)
-    (try let dn = Unix.openfile "/dev/null" [Unix.O_WRONLY] 0 in Unix.dup2 dn Unix.stderr with _ -> ());
+    (* (VERIF_CHILD_STDERR=1 keeps them, for diagnosing a replay by hand) *)
+    if Sys.getenv_opt "VERIF_CHILD_STDERR" = None then
+      (try let dn = Unix.openfile "/dev/null" [Unix.O_WRONLY] 0 in Unix.dup2 dn Unix.stderr with _ -> ());
     (* watchdog: a case that hangs (lost wake-up, deadlock) ends with SIGALRM instead of stalling the whole engine *)
     ignore (Unix.alarm !child_time_limit);
     let s = (try f () with e -> "EXN:" ^ Printexc.to_string e) in
